@@ -67,7 +67,7 @@ def _gen_script(rng, i):
   if kind == 'thrift' and rng.random() < 0.5:
     s['pool'] = {'max_watermark': rng.choice([1, 1, 2]), 'min_watermark': rng.choice([0, 1]),
                  'max_queue_len': rng.choice([0, 1, 2, 1000])}
-  template = rng.choice(['random', 'random', 'preopen', 'queue', 'connect', 'latereply', 'faults', 'members', 'sendq'])
+  template = rng.choice(['random', 'random', 'preopen', 'queue', 'connect', 'latereply', 'faults', 'members', 'sendq', 'pingrace'])
   steps = s['steps']
   nc = [0]
 
@@ -110,6 +110,17 @@ def _gen_script(rng, i):
     issue(rng.choice([23, 53, 107]))
     steps.append(['adv', rng.choice([10, 100])])
     issue(rng.choice([53, 107]))
+  elif template == 'pingrace' and kind == 'mux':
+    # requests whose writes block (peer not reading) all through the window in which the periodic ping
+    # (30-40 s after the open) comes due: the ping must wait its turn behind the frame being written
+    s['nep'] = 1
+    s['plans'] = [['ok', 0]]
+    s['auto'] = rng.choice([0, 20])
+    steps.append(['adv', 29000 + rng.choice([0, 500])])
+    for _ in range(7):
+      issue(5003)
+      steps.append(['stall', rng.choice([1500, 1800])])
+      steps.append(['adv', 2000])
   n = rng.randint(4, 16)
   for _ in range(n):
     k = rng.random()
@@ -142,8 +153,9 @@ def cases(prop, tier, seed):
 
 # ------------------------------------------------------------------ driver
 class _Recorder(object):
-  def __init__(self, loop, net):
+  def __init__(self, loop, net, kind='thrift'):
     from harness.simgevent.vloop import EPOCH
+    self.kind = kind
     self.loop = loop
     self.net = net
     self.epoch = EPOCH
@@ -210,9 +222,35 @@ class _Recorder(object):
           st['obs'] = o
           self.ev.append({'e': 'Changed', 'c': c, 't': self.ms()})
 
+  def _wire(self, e):
+    """Attribute the buffer of one write call to the call(s) whose request frames it holds."""
+    from harness.simgevent import peers
+    data = e.get('data') or b''
+    p = 0
+    while p + 4 <= len(data):
+      n = int.from_bytes(data[p:p + 4], 'big', signed=True)
+      if n < 0 or p + 4 + n > len(data):
+        break
+      frame = data[p + 4:p + 4 + n]
+      p += 4 + n
+      tag = -1
+      call = None
+      if self.kind == 'mux':
+        if len(frame) >= 4 and frame[0] == 2:
+          tag = (frame[1] << 16) | (frame[2] << 8) | frame[3]
+          parsed = peers.mux_parse_tdispatch(frame[4:])
+          call = peers.tbin_decode_call(parsed[3]) if parsed else None
+      else:
+        call = peers.tbin_decode_call(frame)
+      arg = (call or {}).get('arg')
+      if isinstance(arg, str) and arg.startswith('c') and arg[1:].isdigit():
+        self.ev.append({'e': 'Wire', 'conn': e['conn'], 'c': int(arg[1:]), 'tag': tag, 't': self.ms()})
+
   def on_net(self, e):
     k = e['kind']
-    if k == 'srv_recv':
+    if k == 'send':
+      self._wire(e)
+    elif k == 'srv_recv':
       arg = e.get('arg')
       c = -1
       if isinstance(arg, str) and arg.startswith('c') and arg[1:].isdigit():
@@ -311,7 +349,7 @@ def run_case(script):
     else:
       conn.connect_plan = (p[0], p[1] / 1000.0)
   net.on_connect_start = on_connect_start
-  rec = _Recorder(loop, net)
+  rec = _Recorder(loop, net, script['kind'])
   h = build_client(script, loop, net)
   loop.settle()
   max_deadline = T0
@@ -427,10 +465,10 @@ def witness(prop, t, consumed, clause):
   if e.get('e') == 'Done':
     c = e['c']
     issue = next(x for x in ev if x['e'] == 'Issue' and x['c'] == c)
-    sent = any(x['e'] == 'SrvRecv' and x['c'] == c for x in ev[:consumed])
+    sent = any(x['e'] == 'Wire' and x['c'] == c for x in ev[:consumed])
     w['sent'] = sent
     w['done_kind'] = e['kind']
   if e.get('e') == 'End':
     pending = [x['c'] for x in ev if x['e'] == 'Issue' and not any(y['e'] == 'Done' and y['c'] == x['c'] for y in ev)]
-    w['pending_never_sent'] = all(not any(y['e'] == 'SrvRecv' and y['c'] == c for y in ev) for c in pending)
+    w['pending_never_sent'] = all(not any(y['e'] == 'Wire' and y['c'] == c for y in ev) for c in pending)
   return w
